@@ -7,6 +7,25 @@ from pyvc.models_calls import JSON_TEXT, ufun
 VALUE_STRING = ufun('VALUE_STRING', HeapSort, V, Str)
 
 
+def footprint_heap(K):
+    """The heap a tree-recursive spec function is applied to. Fresh temporaries owned by the function under
+    verification (its argument list, objects it allocated) are not reachable from script values, so the value of a
+    tree-recursive function does not depend on them: they are masked back to their pre-state (trusted separation
+    argument, DESIGN.md 3.10)."""
+    base = K.ctx.ghost.get('pre_heap')
+    if base is None:
+        return K.heap.term()
+    h0, temps = base
+    h = K.heap
+    r = z3.Int('r!fp')
+    keep = z3.And(r < h0.alloc, *[r != t for t in temps])
+
+    def mask(cur, old):
+        return z3.Lambda([r], z3.If(keep, z3.Select(cur, r), z3.Select(old, r)))
+    return HeapSort.mkheap(mask(h.LEN, h0.LEN), mask(h.ELS, h0.ELS), mask(h.HAS, h0.HAS), mask(h.VAL, h0.VAL),
+                           mask(h.NK, h0.NK), mask(h.KEY, h0.KEY))
+
+
 class ValueJson(FnContract):
     """value_json(value, indent): a pure function of the value tree (JSON_TEXT uninterpreted). Assumed total:
     cyclic containers and non-finite floats (ValueError) are outside the model."""
@@ -16,7 +35,7 @@ class ValueJson(FnContract):
 
     def post(self, K, out):
         if out.kind == 'return':
-            return [('text', out.value.t == JSON_TEXT(K.heap.term(), K.term(0), K.term(1)))]
+            return [('text', out.value.t == JSON_TEXT(footprint_heap(K), K.term(0), K.term(1)))]
         return []
 
 
@@ -28,7 +47,7 @@ class ValueString(FnContract):
     def post(self, K, out):
         if out.kind == 'return':
             v = K.term(0)
-            return [('text', out.value.t == VALUE_STRING(K.heap.term(), v)),
+            return [('text', out.value.t == VALUE_STRING(footprint_heap(K), v)),
                     ('identity-on-strings', z3.Implies(is_str(v), out.value.t == V.s(v)))]
         return []
 
